@@ -275,7 +275,7 @@ fn coq_spec_cases(expected: &[Vec<Val>], obs: &Obs, rng: &mut Rng, out: &mut Cas
     }
 }
 
-/// Class of the known finding F82: a column of a LEGACY (v1) input of a STACK merge that is multivalued there
+/// Class of F82 (fixed in /repo): a column of a LEGACY (v1) input of a STACK merge that is multivalued there
 /// (some row with >= 2 values) and has a value-less row.
 pub fn f82_column(rows: &[Vec<Val>]) -> bool { rows.iter().any(|r| r.len() >= 2) && rows.iter().any(|r| r.is_empty()) }
 
@@ -313,7 +313,7 @@ pub fn check_table(bytes: Vec<u8>, t: &Table, rng: &mut Rng, out: &mut CaseOut, 
     check_table_known(bytes, t, rng, out, ctx, coq, &BTreeSet::new())
 }
 
-/// `known_f82`: columns whose inputs lie in the class of the known finding F82 (see `f82_column`)
+/// `known_f82`: columns whose inputs lie in the class of F82 (fixed in /repo; see `f82_column`) -- counted only
 pub fn check_table_known(bytes: Vec<u8>, t: &Table, rng: &mut Rng, out: &mut CaseOut, ctx: Value, coq: bool, known_f82: &BTreeSet<String>) {
     let r = guarded(|| -> Result<Vec<(usize, Option<Obs>)>, String> {
         let reader = ColumnarReader::open(bytes).map_err(|e| e.to_string())?;
@@ -344,9 +344,10 @@ pub fn check_table_known(bytes: Vec<u8>, t: &Table, rng: &mut Rng, out: &mut Cas
                     Some(o) => {
                         let fail = check_column(&c.rows, c.kind, &o, rng, out, &cctx);
                         if let Some(f) = &fail { cctx["what"] = json!(f); cctx["rows_head"] = json!(format!("{:?}", &c.rows[..c.rows.len().min(6)])); }
-                        if fail.is_some() && known_f82.contains(&c.name) {
-                            cctx["known"] = json!("F82"); out.n_spec += 1; out.spec_fail.push(cctx.clone()); out.count("f82_stack_of_legacy_multivalued_with_empty_rows", 1);
-                        } else { out.spec_checked(fail.is_none(), cctx.clone()); }
+                        // columns of stack merges with a legacy multivalued input holding value-less documents (the class of F82,
+                        // fixed in /repo) are only counted: a failure there is an ordinary violation
+                        if known_f82.contains(&c.name) { out.count("stack_of_legacy_multivalued_with_empty_rows_columns", 1); cctx["former_f82_class"] = json!(true); }
+                        out.spec_checked(fail.is_none(), cctx.clone());
                         if coq && fail.is_none() { coq_spec_cases(&c.rows, &o, rng, out, &cctx); }
                     }
                 }
